@@ -34,10 +34,14 @@ def _recogniser(test, assigns):
         return test.func.value.id
     if isinstance(test, ast.Name) and test.id in assigns:
         return assigns[test.id]
-    if isinstance(test, ast.Compare) and src(test.left) == "text.lower()":
+    if isinstance(test, ast.Compare) and (src(test.left) == "text.lower()" or
+                                          (isinstance(test.left, ast.Name) and assigns.get(test.left.id) == "@text.lower()")):
         c = test.comparators[0]
         if isinstance(c, (ast.List, ast.Tuple)):
-            return "|".join(const_str(e) for e in c.elts)
+            words = [const_str(e) for e in c.elts]
+            if set(words) == {"true", "yes", "false", "no"}:
+                return ["true|yes", "false|no"]       # both boolean spellings recognised by one membership test
+            return "|".join(words)
         return const_str(c)
     return None
 
@@ -59,7 +63,11 @@ def flatten(module, fname, depth=0, seen=()):
                 yield from ordered(st_.orelse)
     for st in ordered(fn.body):
         last_raise = False
-        if isinstance(st, ast.Assign) and isinstance(st.value, ast.Call):
+        if isinstance(st, (ast.Assign, ast.AugAssign)) and any(dotted(t) == "text" for t in (st.targets if isinstance(st, ast.Assign) else [st.target])):
+            steps.append("text-rebound")      # what later converters receive is no longer the token as written
+        elif isinstance(st, ast.Assign) and isinstance(st.value, ast.Call) and src(st.value) == "text.lower()" and isinstance(st.targets[0], ast.Name):
+            assigns[st.targets[0].id] = "@text.lower()"
+        elif isinstance(st, ast.Assign) and isinstance(st.value, ast.Call):
             r = _recogniser(st.value, assigns)
             if r and isinstance(st.targets[0], ast.Name):
                 assigns[st.targets[0].id] = r
@@ -67,7 +75,16 @@ def flatten(module, fname, depth=0, seen=()):
             tests = st.test.values if isinstance(st.test, ast.BoolOp) and isinstance(st.test.op, ast.Or) else [st.test]
             for t_ in tests:
                 r = _recogniser(t_, assigns)
-                if r is not None:
+                if isinstance(r, list):
+                    steps.extend(r)
+                    # the merged form answers with the truth of the `true|yes` membership
+                    rv = [x.value for x in st.body if isinstance(x, ast.Return) and x.value is not None]
+                    okv = bool(rv) and isinstance(rv[0], ast.Compare) and isinstance(rv[0].ops[0], ast.In) and \
+                        isinstance(rv[0].comparators[0], (ast.List, ast.Tuple)) and \
+                        {const_str(e) for e in rv[0].comparators[0].elts} == {"true", "yes"}
+                    if not okv:
+                        steps.append("bool-value-mismatch")
+                elif r is not None:
                     steps.append(r)
         elif isinstance(st, ast.Try):
             for x in st.body:
